@@ -449,6 +449,157 @@ def credit_frames(tr):
     return n
 
 
+# ---------------------------------------------------------------------------------------
+# trace acceptor: the Lean model (driver component `recvflow`) replays what the victim processed
+
+SPACE_TOK = {"initial": "initial", "handshake": "handshake", "app": "app"}
+
+
+def frame_tok(f):
+    t = f["type"]
+    if t == "STREAM":
+        return f"S,{f['id']},{f['offset']},{len(f['data'])},{1 if f['fin'] else 0}"
+    if t == "RESET_STREAM":
+        return f"R,{f['id']},{f['final_size']}"
+    if t == "STOP_SENDING":
+        return f"SS,{f['id']}"
+    if t == "MAX_STREAM_DATA":
+        return f"MSD,{f['id']},{f['max']}"
+    if t == "STREAM_DATA_BLOCKED":
+        return f"SDB,{f['id']},{f['limit']}"
+    if t == "MAX_DATA":
+        return f"MD,{f['max']}"
+    if t == "DATA_BLOCKED":
+        return f"DB,{f['limit']}"
+    if t == "MAX_STREAMS":
+        return f"MS,{1 if f['bidi'] else 0},{f['max']}"
+    if t == "STREAMS_BLOCKED":
+        return f"SB,{1 if f['bidi'] else 0},{f['limit']}"
+    if t == "NEW_CONNECTION_ID":
+        return f"NCID,{f['seq']},{f['retire_prior_to']},{len(f['cid']) // 2}"
+    if t == "RETIRE_CONNECTION_ID":
+        # the sequence number of the connection id the packet was addressed to is not visible in a trace: assume it
+        # is not the one being retired (rcid-current is listed under SOFT)
+        return f"RCID,{f['seq']},4611686018427387903"
+    if t == "CONNECTION_CLOSE":
+        return "CLOSE_A" if f["app"] else "CLOSE_T"
+    if t == "UNKNOWN":
+        return f"U,{f['tag']}"
+    return {"NEW_TOKEN": "NT", "HANDSHAKE_DONE": "HD", "PATH_CHALLENGE": "PC", "PATH_RESPONSE": "PR", "PING": "PING",
+            "PADDING": "PAD", "ACK": "ACK", "CRYPTO": "CRYPTO"}.get(t)
+
+
+def model_ops(tr):
+    """-> (ops, checks) : the op lines for the Lean driver and, per processed packet of the victim,
+    (first op index, last op index, implementation verdict = None | transport error code, description)"""
+    a = tr.attack
+    victim = e2e.peer(a.get("ep", "c"))
+    decl = e2e.declared_tps(tr)
+    vals = [configured(tr, decl, victim, k) for k in ("data_window", "bidi_local", "bidi_remote", "uni", "max_bidi_remote", "max_uni_remote")]
+    if any(v is None for v in vals):
+        return None, None
+    ops = [f"init {1 if victim == 's' else 0} " + " ".join(str(v) for v in vals)]
+    checks = []
+    closes = [r for r in tr.recs if r.kind == "ev" and r.ep == victim and r.name == "connectivity:connection_closed"]
+    first_close = closes[0].idx if closes else 10**12
+    rx = [r for r in tr.recs if r.kind == "rxp" and r.ep == victim]
+    nxt = {r.idx: (rx[i + 1].idx if i + 1 < len(rx) else 10**12) for i, r in enumerate(rx)}
+    for r in tr.recs:
+        if r.idx > first_close:
+            break
+        if r.kind == "app" and r.ep == victim:
+            if r.what == "open" and r.args[1] in ("bidi", "uni"):
+                ops.append(f"open {r.args[0]}")
+            elif r.what == "read":
+                ops.append(f"read {r.args[0]} {r.args[2]}")
+            elif r.what == "stop":
+                ops.append(f"stop {r.args[0]}")
+        elif r.kind == "txp" and r.ep == victim and r.space == "app":
+            for f in r.frames:
+                if f["type"] == "MAX_STREAMS":
+                    ops.append(f"limit {0 if f['bidi'] else 1} {f['max']}")
+                elif f["type"] == "NEW_CONNECTION_ID":
+                    ops.append(f"cidseq {f['seq'] + 1}")
+        elif r.kind == "rxp" and r.ep == victim:
+            toks = [frame_tok(f) for f in r.frames]
+            if any(t is None for t in toks):
+                return None, None
+            ev = next((c for c in closes if r.idx < c.idx < nxt[r.idx]), None)
+            verdict = None
+            if ev is not None:
+                kind, code, initiator = parse_close(ev.text)
+                if kind == "Transport" and initiator != "Remote":
+                    verdict = code
+            lo = len(ops)
+            ops += [f"frame {r.space} {t}" for t in toks]
+            checks.append((lo, len(ops) - 1, verdict, f"{r.space} packet {r.pn} at {r.t}us"))
+    return ops, checks
+
+
+# divergences between model and implementation that are understood and NOT about the property's observables:
+#  - the model never removes a finished stream from the map (the implementation does, and then ignores frames for it)
+#  - the model sees the MAX_STREAMS values on the wire, the implementation checks against its newest internal value
+#  - the sequence number of the connection id a packet was addressed to is not visible in the trace
+SOFT = {"ss-max-stream-data-recv-only-open": "finished stream already removed from the implementation's stream map",
+        "rcid-current": "destination connection id of the packet not visible in the trace",
+        "ncid-limit": "the model does not carry the peer connection-id registry (active_connection_id_limit)"}
+
+
 def model_conformance(ctx, traces):
-    """placeholder until the Lean trace acceptor is wired in"""
-    return
+    """tie T (acceptor): the Lean model must take the same accept / reject(code) decision as the implementation for
+    every packet the victim processed, in every adversarial trace"""
+    from vlib import DRIVER, run_lines
+    import os
+    if not os.path.exists(DRIVER):
+        ctx.oblige("correspond", "T:attack: Lean model replays the victim's packets (driver missing)", False, DRIVER)
+        return
+    lines = []
+    spans = []
+    for tr in traces:
+        if not tr.attack:
+            continue
+        ops, checks = model_ops(tr)
+        if ops is None:
+            ctx.count("e2e:attack:model:not-replayable")
+            continue
+        lines.append("reset")
+        spans.append((tr, len(lines), ops, checks))
+        lines += ops
+    if not lines:
+        return
+    rc, out, err = run_lines([DRIVER, "recvflow"], lines)
+    if rc != 0 or len(out) != len(lines):
+        ctx.oblige("correspond", "T:attack: Lean model replays the victim's packets", False, f"driver failed rc={rc} {err[-500:]}")
+        return
+    mism = []
+    packets = 0
+    for tr, base, ops, checks in spans:
+        name = tr.attack["name"]
+        dead = False
+        for lo, hi, verdict, what in checks:
+            if dead:
+                break
+            packets += 1
+            outs = out[base + lo: base + hi + 1]
+            model = next((int(o.split(" ")[1]) for o in outs if o.startswith("err")), None)
+            if any(o == "bad-op" for o in outs) or any(o == "bad-op" for o in out[base: base + lo]):
+                mism.append((tr, what, "model answered bad-op", None, None))
+                break
+            if model != verdict:
+                is_attack_pkt = what.startswith(f"{tr.attack.get('space', 'app')} packet {tr.attack['pn']} ")
+                if is_attack_pkt and name in SOFT:
+                    ctx.count("e2e:attack:model:soft-divergence:" + name)
+                else:
+                    mism.append((tr, what, f"implementation {'closed with ' + hex(verdict) if verdict is not None else 'accepted'}, model {'closes with ' + hex(model) if model is not None else 'accepts'}", verdict, model))
+                dead = True
+            elif model is not None:
+                dead = True
+        ctx.evaluations += 1
+    ctx.extra["model_replayed_packets"] = packets
+    detail = "; ".join(f"{tr.attack['name']} {what}: {msg} [{' '.join(e2e.args_of(tr.params))}]" for tr, what, msg, _, _ in mism[:4])
+    ctx.oblige("correspond", f"T:attack: the Lean model takes the implementation's accept/reject(code) decision on each of {packets} packets the victims processed",
+               not mism, detail)
+    if mism:
+        ctx.extra.setdefault("disagreements", []).append({"component": "recvflow", "count": len(mism), "first": detail[:1500]})
+
+
